@@ -224,7 +224,7 @@ func TestC08(t *testing.T) {
 			return
 		}
 		// Foreign identity (not in the mesh) for re-attribution.
-		foreign := ids.Get(70 + c.Pick("foreign", 10))
+		foreign := ms.outsider(ids.All()[70:80], c.Pick("foreign", 10))
 		extra := map[netip.Addr]*ids.Identity{foreign.Addr.IP: foreign}
 
 		attacks := c.Int("attacks", 1, 6)
